@@ -806,6 +806,10 @@ class Collocator:
                 lat1, lon1, lat2, lon2, max_distance,
             )
 
+            # Did we find any spatial collocations?
+            if not pairs.size:
+                return self.empty
+
             intervals = self._get_intervals(
                 time1[pairs[0]], time2[pairs[1]]
             )
